@@ -3,7 +3,9 @@
 (* Trace validator for C20 (binding B).  Each event holds the RLE          *)
 (* fragments the driver fed to dicom-rs (one per frame, produced by a      *)
 (* randomised PackBits encoder that is only an input generator) and what   *)
-(* decode_pixel_data / decode_pixel_data_frame(k) returned.  TLC decodes   *)
+(* decode_pixel_data / decode_pixel_data_frame(k) returned, plus what the  *)
+(* registry's RLE reader returned when called directly (frames accumulated *)
+(* in one vector; output appended to a pre-filled vector).  TLC decodes    *)
 (* the fragments with the Annex G reference decoder of module Rle and      *)
 (* accepts the event iff the code returned exactly those bytes, for every  *)
 (* frame and for the whole object (= concatenation of the frames).         *)
@@ -30,6 +32,12 @@ TCase == /\ l <= Len(Rec) /\ R.ev = "case"
          /\ \A f \in 1..R.frames : R.per[f].res = "ok" /\ R.per[f].data = Exp(f)
          /\ R.whole.res = "ok"
          /\ R.whole.data = Concat([f \in 1..R.frames |-> Exp(f)])
+         (* the adapter's own interface appends to the destination vector:      *)
+         (* frames decoded one after another into one vector give the whole,    *)
+         (* and bytes already in the vector (the sentinel) stay untouched       *)
+         /\ R.acc.res = "ok" /\ R.acc.data = Concat([f \in 1..R.frames |-> Exp(f)])
+         /\ \A f \in 1..R.frames : R.pre[f].res = "ok" /\ R.pre[f].data = R.sentinel \o Exp(f)
+         /\ R.pre_whole.res = "ok" /\ R.pre_whole.data = R.sentinel \o Concat([f \in 1..R.frames |-> Exp(f)])
          /\ l' = l + 1
 
 TMalformed == /\ l <= Len(Rec) /\ R.ev = "case"
